@@ -28,8 +28,43 @@ def design_sig(spec):
     walk(b)
     d = [f for f in spec['factors'] if 'deps' in f]
     weighted = any(w > 1 for f in spec['factors'] for _, w in f.get('levels', []))
+    fm = {f['name']: f for f in spec['factors']}
+    crossings, rccs, excl = [], [], []
+
+    def walk2(x):
+        if x['op'] == 'cross':
+            crossings.append(x['crossing'])
+            rccs.append(x.get('rcc', True))
+        elif x['op'] == 'multi':
+            crossings.extend(x['crossings'])
+            rccs.append(x.get('rcc', True))
+        for c in x.get('constraints', []):
+            if c['c'] == 'Exclude':
+                excl.append(c['factor'])
+        for k in ('block', 'outer', 'inner'):
+            if k in x:
+                walk2(x[k])
+        for y in x.get('blocks', []):
+            walk2(y)
+    walk2(b)
+    in_all = set(fm) if crossings else set()
+    in_any = set()
+    for c in crossings:
+        in_all &= set(c)
+        in_any |= set(c)
+
+    def desugared(n):      # weighted basic factor that the library rewrites into a hidden factor + derived factor
+        f = fm[n]
+        return 'deps' not in f and not f.get('continuous') and any(w > 1 for _, w in f['levels']) and n not in in_any
+    # a crossed within-trial derived factor one of whose inputs is itself derived (or is rewritten to a derived factor)
+    xwd = any('deps' in fm[n] and fm[n]['width'] == 1 and any('deps' in fm[dn] or desugared(dn) for dn in fm[n]['deps'])
+              for n in in_any if n in fm)
+    kinds = set()
+    for n in excl:
+        kinds.add(('crossed_' if n in in_any else 'uncrossed_') + ('derived' if 'deps' in fm[n] else 'basic'))
     return {'ops': '+'.join(ops), 'cons': '+'.join(sorted(set(cons))) or '-',
-            'derived': '+'.join(sorted(set(f['kind'] for f in d))) or '-', 'weighted': weighted}
+            'derived': '+'.join(sorted(set(f['kind'] for f in d))) or '-', 'weighted': weighted,
+            'rcc': all(rccs), 'xwd': xwd, 'excl': '+'.join(sorted(kinds)) or '-'}
 
 
 def brief(spec):
@@ -73,7 +108,13 @@ def synth(block, n, gen_name):
     """synthesize_trials with output captured -> (exps | None, exception | None, stdout)"""
     import sweetpea as sp
     try:
-        exps, out = core.quiet_out(sp.synthesize_trials, block, n, B.gen(gen_name))
+        if gen_name == 'sm':
+            # never start SMGen's real 60-second threading.Timer inside a worker
+            from vt import seams
+            with seams.smgen_seams():
+                exps, out = core.quiet_out(sp.synthesize_trials, block, n, B.gen(gen_name))
+        else:
+            exps, out = core.quiet_out(sp.synthesize_trials, block, n, B.gen(gen_name))
     except Exception as e:
         return None, e, ''
     return exps, None, out
